@@ -522,6 +522,31 @@ class Index:
                             return k, "scalar"
         return None, "unknown"
 
+    def dead_modules(self) -> Set[str]:
+        """Modules that cannot be imported: they import a name from a repo module that does not define it."""
+        dead: Set[str] = set()
+        for mi in self.modules.values():
+            skip: Set[int] = set()
+            for n in ast.walk(mi.tree):
+                if isinstance(n, ast.If) and "TYPE_CHECKING" in unparse(n.test):
+                    for sub in ast.walk(n):
+                        skip.add(id(sub))
+            for n in ast.walk(mi.tree):
+                if id(n) in skip:
+                    continue
+                if isinstance(n, ast.ImportFrom) and n.module and n.level == 0 and n.module in self.modules:
+                    tgt = self.modules[n.module]
+                    defined = set(tgt.classes) | set(tgt.functions) | set(tgt.imports)
+                    for s in ast.walk(tgt.tree):
+                        if isinstance(s, (ast.Assign, ast.AnnAssign)):
+                            for t in (s.targets if isinstance(s, ast.Assign) else [s.target]):
+                                if isinstance(t, ast.Name):
+                                    defined.add(t.id)
+                    for a in n.names:
+                        if a.name != "*" and a.name not in defined and f"{n.module}.{a.name}" not in self.modules:
+                            dead.add(mi.path)
+        return dead
+
     def all_functions(self) -> Iterator[FuncInfo]:
         return iter(self.functions)
 
